@@ -50,6 +50,10 @@ def run_property(prop: str, tier: str, seed: int, overlay=None, write=True, quie
         mod = importlib.import_module(f".rules.{RULESETS[prop]}", __package__)
         ctx = Ctx(repo, res, tier, seed)
         mod.run(ctx)
+        if prop != "C17":  # C17 is about process-wide state; every other property is an input / output statement
+            from .rules.state import history_free
+
+            ctx.guarded(history_free, ctx, prop)
         res.stats.setdefault("files_parsed", len(repo.modules))
         res.stats.setdefault("functions_in_scope", len(repo.functions))
     except AnalysisError as e:
